@@ -176,6 +176,50 @@ func ruleS10(p *Prog, r *Report) {
 				if ord > 1 {
 					cons += "#" + itoa(ord)
 				}
+				if exact {
+					// the counter that bounds the region advances with every fill: c is a loop phi and the block of
+					// each fill that indexes by c also computes c + 1, which flows back into the phi
+					adv := false
+					if ph, ok := canon(counter).(*ssa.Phi); ok {
+						eachInstr(f, func(y ssa.Instruction) {
+							bo, ok := y.(*ssa.BinOp)
+							if !ok || bo.Op != token.ADD || canon(bo.X) != ssa.Value(ph) {
+								return
+							}
+							if k, isK := constInt(bo.Y); !isK || k != 1 {
+								return
+							}
+							flows := false
+							for _, e := range ph.Edges {
+								if canon(e) == ssa.Value(bo) {
+									flows = true
+								}
+								if p2, ok := canon(e).(*ssa.Phi); ok {
+									for _, e2 := range p2.Edges {
+										if canon(e2) == ssa.Value(bo) {
+											flows = true
+										}
+									}
+								}
+							}
+							if !flows {
+								return
+							}
+							// a fill in the same block
+							for _, z := range bo.Block().Instrs {
+								if st, ok := z.(*ssa.Store); ok {
+									if ia, ok := st.Addr.(*ssa.IndexAddr); ok && canon(ia.X) == ssa.Value(mk) {
+										adv = true
+									}
+								}
+							}
+						})
+					}
+					if !adv {
+						r.Bad(R, cons, p.InstrPos(x), "the counter that bounds this region of the collector array is not advanced together with the fills that index by it: the region stays empty (or too short) and the keys collected into it are never applied")
+						return
+					}
+				}
 				if !exact {
 					r.Bad(R, cons, p.InstrPos(x), "this slice of the array the commit keys were collected into is neither the region filled from the front ([:counter]) nor the region filled from the back ([len-counter:]): it can contain unset (zero) identifiers and miss collected ones")
 					return
@@ -391,4 +435,199 @@ func recordedError(ev ssa.Value, b *ssa.BasicBlock) bool {
 		}
 	}
 	return false
+}
+
+// S11 the storage's own bookkeeping obligations that no caller-visible test of the pinned suite exercises (C15, C09):
+//
+//	retire-after-write   after a register write of id succeeded in a commit routine, the write-set entry of id is
+//	                     deleted before the next key is taken (C15: a commit empties the owned write set)
+//	drop-replaces-layer  DropDeltas assigns the write set, DropCache the read cache, a fresh empty map on every path
+//	                     (C15: dropping both reverts the view to the last commit)
+//	temp-id-advances     on the temporary-address path of GenerateSlabID the counter the identifier is built from is
+//	                     advanced on every call (C09: two live slabs never share an identifier)
+func ruleS11(p *Prog, r *Report) {
+	const R = "S11"
+	n := 0
+	// retire-after-write
+	for _, top := range p.commitGraph() {
+		eachInstrDeep(top, func(fn *ssa.Function, in ssa.Instruction) {
+			c, idv, kind, ok := p.registerWrite(in)
+			if !ok {
+				return
+			}
+			if _, _, isWrapper := p.regWriteWrapper(fn); isWrapper {
+				return // the helper writes the register it is given; its callers retire the entry
+			}
+			v := callValue(c)
+			if v == nil {
+				return
+			}
+			// the err == nil edge of the write
+			var test *ssa.If
+			nn := 0
+			for _, b := range fn.Blocks {
+				if ifi, ok := b.Instrs[len(b.Instrs)-1].(*ssa.If); ok {
+					if x, s, ok := errTestOf(ifi); ok && sameValue(x, v) {
+						test, nn = ifi, s
+					}
+				}
+			}
+			if test == nil {
+				return // S5 reports an untested write
+			}
+			n++
+			head := loopHeadOf(in.Block())
+			okEdge := test.Block().Succs[1-nn]
+			// walk from the success edge: must meet delete(deltas, id) before reaching the loop header again or a return
+			var escape ssa.Instruction
+			seen := map[*ssa.BasicBlock]bool{}
+			var walk func(b *ssa.BasicBlock)
+			walk = func(b *ssa.BasicBlock) {
+				if seen[b] || escape != nil {
+					return
+				}
+				seen[b] = true
+				if b == head {
+					escape = b.Instrs[0]
+					return
+				}
+				for _, x := range b.Instrs {
+					if cc, ok := isBuiltinCall(x, "delete"); ok && len(cc.Args) == 2 {
+						if fr, ok := asLoadedField(cc.Args[0]); ok && fr.is(storageT, "deltas") && sameValue(cc.Args[1], idv) {
+							return
+						}
+					}
+					if ret, ok := x.(*ssa.Return); ok {
+						if cl, _ := classifyReturn(ret); cl != retError {
+							escape = x
+						}
+						return
+					}
+				}
+				for _, s := range b.Succs {
+					walk(s)
+				}
+			}
+			walk(okEdge)
+			r.Decide(escape == nil, R, "retire-after-write:"+p.Name(fn)+":"+kind, p.InstrPos(in),
+				"after the register write succeeded the write-set entry of the same id is deleted before the next key is taken",
+				"after BaseStorage."+kind+" succeeded the commit can go on to the next key (or return) without deleting the write-set entry of that id: a commit that returns nil leaves the owned write set non-empty, the change is written again by every later commit and HasUnsavedChanges stays true")
+		})
+	}
+	// drop-replaces-layer
+	for _, d := range []struct{ method, field string }{{"DropDeltas", "deltas"}, {"DropCache", "cache"}} {
+		f := p.Method(storageT, d.method)
+		if f == nil {
+			r.Unk(R, "anchor:"+d.method, "-", "method not found")
+			continue
+		}
+		n++
+		isFresh := func(z ssa.Instruction) bool {
+			st, ok := z.(*ssa.Store)
+			if !ok {
+				return false
+			}
+			fr, ok := asFieldAddr(st.Addr)
+			if !ok || !fr.is(storageT, d.field) {
+				return false
+			}
+			if mm, ok := canon(st.Val).(*ssa.MakeMap); ok {
+				_ = mm
+				return true
+			}
+			return isNilConst(canon(st.Val))
+		}
+		bad := successReturnAvoiding(f, nil, isFresh)
+		// and nothing else of the storage is touched
+		other := ""
+		eachInstr(f, func(z ssa.Instruction) {
+			if st, ok := z.(*ssa.Store); ok {
+				if fr, ok := asFieldAddr(st.Addr); ok && fr.Owner != nil && fr.Owner.Obj().Name() == storageT && fr.Field != d.field {
+					other = fr.Field
+				}
+			}
+		})
+		r.Decide(bad == nil && other == "", R, "drop-replaces-layer:"+d.method, p.Pos(f.Pos()),
+			"assigns a fresh empty map to "+d.field+" on every path and touches nothing else",
+			func() string {
+				if other != "" {
+					return d.method + " also writes " + other + ": dropping one layer must not change the other"
+				}
+				return d.method + " can return without replacing " + d.field + " by an empty map: the view does not revert to the last commit"
+			}())
+	}
+	// temp-id-advances
+	if f := p.Method(storageT, "GenerateSlabID"); f != nil {
+		n++
+		// the address test; on the temporary edge every success return is preceded by a store tempSlabIndex = tempSlabIndex + k
+		var tempBlock *ssa.BasicBlock
+		for _, b := range f.Blocks {
+			ifi, ok := b.Instrs[len(b.Instrs)-1].(*ssa.If)
+			if !ok {
+				continue
+			}
+			bo, ok := ifi.Cond.(*ssa.BinOp)
+			if !ok || (bo.Op != token.EQL && bo.Op != token.NEQ) {
+				continue
+			}
+			isUndef := func(v ssa.Value) bool {
+				u, ok := v.(*ssa.UnOp)
+				if !ok {
+					return false
+				}
+				g, ok := u.X.(*ssa.Global)
+				return ok && g.Name() == "AddressUndefined"
+			}
+			if isUndef(bo.X) || isUndef(bo.Y) {
+				if bo.Op == token.EQL {
+					tempBlock = b.Succs[0]
+				} else {
+					tempBlock = b.Succs[1]
+				}
+			}
+		}
+		good := false
+		if tempBlock != nil && len(tempBlock.Instrs) > 0 {
+			isAdvance := func(z ssa.Instruction) bool {
+				st, ok := z.(*ssa.Store)
+				if !ok {
+					return false
+				}
+				fr, ok := asFieldAddr(st.Addr)
+				if !ok || !fr.is(storageT, "tempSlabIndex") {
+					return false
+				}
+				bo, ok := canonConv(st.Val).(*ssa.BinOp)
+				if !ok || bo.Op != token.ADD {
+					return false
+				}
+				k, isK := constInt(bo.Y)
+				lf, isL := asLoadedField(bo.X)
+				return isK && k >= 1 && isL && lf.is(storageT, "tempSlabIndex")
+			}
+			first := tempBlock.Instrs[0]
+			if isAdvance(first) {
+				good = true
+			} else {
+				esc := false
+				reachFrom(f, first, nil, func(z ssa.Instruction) bool {
+					if esc || isAdvance(z) {
+						return true
+					}
+					if ret, ok := z.(*ssa.Return); ok {
+						if cl, _ := classifyReturn(ret); cl != retError {
+							esc = true
+						}
+						return true
+					}
+					return false
+				})
+				good = !esc
+			}
+		}
+		r.Decide(good, R, "temp-id-advances:GenerateSlabID", p.Pos(f.Pos()),
+			"every temporary identifier is built after advancing the storage's counter",
+			"on the temporary-address path GenerateSlabID can return without advancing tempSlabIndex: two live temporary slabs get the same identifier and the second Store replaces the first")
+	}
+	r.Floor(R, "storage bookkeeping obligations", 6, n)
 }
